@@ -24,6 +24,8 @@ def main():
     pid, mdir = sys.argv[1], sys.argv[2].rstrip("/")
     checks = (sys.argv[3] if len(sys.argv) > 3 else pid).split(",")
     name = os.path.basename(mdir)
+    if "/mut2-" in mdir:
+        name = "r2" + name      # second round of independently seeded changes
     meta = json.load(open(os.path.join(mdir, "meta.json")))
     readme = open(os.path.join(mdir, "demo", "README.txt")).read() if os.path.exists(os.path.join(mdir, "demo", "README.txt")) else ""
     orig_repo = os.path.dirname(os.path.dirname(mdir)) + "/repo"
